@@ -8,6 +8,7 @@ import (
 	"encoding/hex"
 	"fmt"
 	"math/big"
+	"regexp"
 	"sort"
 	"strings"
 
@@ -37,6 +38,15 @@ type Trace struct {
 	steps    []traceStep
 	rootIDs  map[string]int
 	pairs    map[[2]string]bool // (addr, slot) pairs ever written
+	nrev     int
+}
+
+// lastRevert names the last recorded revert step (key into the model's answers).
+func (t *Trace) lastRevert() string {
+	if t == nil {
+		return ""
+	}
+	return fmt.Sprintf("revert #%d on A", t.nrev)
 }
 
 func newTrace(newState bool) *Trace {
@@ -179,6 +189,56 @@ func blockLine(b *lib.Bundle) string {
 	return sb.String()
 }
 
+// modelErrClass maps an error of the real Store / RevertHead to the model's error enum (root
+// verifications are one class: juno prints the same text for the old-root and the new-root check).
+func modelErrClass(err error) string {
+	if err == nil {
+		return "ok"
+	}
+	m := err.Error()
+	has := func(sub string) bool { return strings.Contains(m, sub) }
+	switch {
+	case has("panic:"):
+		return "panic"
+	case has("expected block #"):
+		return "err:blockNumber"
+	case has("parent hash does not match"):
+		return "err:parentHash"
+	case has("check head state"):
+		return "err:checkHeadState"
+	case has("contract already deployed"):
+		return "err:contractExists"
+	case has("state commitment mismatch"), has("does not match the expected root"):
+		return "err:root"
+	case has("cannot migrate"), has("metadata not found"), has("not available in newClasses"), has("must be a SierraClass"),
+		has("unmigrate"), has("casm metadata"), has("revert migrated"):
+		return "err:casm"
+	case has("get class"), has("remove declared classes"), has("remove classes of deployed contracts"):
+		return "err:classMissing"
+	case has("contract not deployed"), has("purge contract"):
+		return "err:contractMissing"
+	case has("block number is not within range"):
+		return "err:filterRange"
+	case has("key not found"):
+		return "err:notFound"
+	}
+	return "err:unmapped:" + errClass(err)
+}
+
+// normModel folds the model's finer error names into the classes modelErrClass can tell apart.
+func normModel(ans string) string {
+	switch ans {
+	case "err:rootOld", "err:rootNew", "err:revRootOld", "err:revRootNew":
+		return "err:root"
+	case "err:noHead":
+		return "err:notFound"
+	}
+	if strings.HasPrefix(ans, "ok") {
+		return ans
+	}
+	return ans
+}
+
 func (t *Trace) store(n *Node, b *lib.Bundle, spec *lib.BlockSpec, err error) {
 	if t == nil {
 		return
@@ -194,20 +254,43 @@ func (t *Trace) store(n *Node, b *lib.Bundle, spec *lib.BlockSpec, err error) {
 	if err == nil {
 		expect = "ok " + t.rootID(b.Block.GlobalStateRoot)
 	} else {
-		expect = "err"
+		expect = modelErrClass(err)
 	}
 	t.add("store "+name+" "+blockLine(b), expect, fmt.Sprintf("store block %d on %s", b.Block.Number, name))
+}
+
+// storeWrongRoot records the failing operation "Store of the block with a wrong new state root".
+func (t *Trace) storeWrongRoot(n *Node, b *lib.Bundle, err error) {
+	if t == nil {
+		return
+	}
+	t.add("storewrongroot "+modelName(n)+" "+blockLine(b), modelErrClass(err), fmt.Sprintf("store block %d with a wrong state root on %s", b.Block.Number, modelName(n)))
+}
+
+// storeRefused records a block that juno's own Finalise refused on the source node (the model is
+// asked to store the same content on the node A it would have been offered to).
+func (t *Trace) storeRefused(n *Node, number uint64, parent *felt.Felt, spec *lib.BlockSpec, err error) {
+	if t == nil {
+		return
+	}
+	b := &lib.Bundle{Block: &core.Block{Header: &core.Header{Number: number, Hash: lib.F(0xdead0000 + number), ParentHash: parent,
+		ProtocolVersion: spec.Version}, Transactions: spec.Txs}, SU: &core.StateUpdate{StateDiff: spec.Diff}, Classes: spec.Classes}
+	t.add("store "+modelName(n)+" "+blockLine(b), modelErrClass(err), fmt.Sprintf("store refused block %d on %s", number, modelName(n)))
 }
 
 func (t *Trace) revert(n *Node, err error) {
 	if t == nil {
 		return
 	}
-	expect := "ok"
-	if err != nil {
-		expect = "err"
+	t.nrev++
+	cls := modelErrClass(err)
+	if _, herr := n.BC.Height(); cls == "err:notFound" && t.newState && herr == nil {
+		// state.Revert returns the class lookup's db.ErrKeyNotFound unwrapped (every other lookup of
+		// RevertHead on a node with a head wraps its error: "get reverse state diff", "get casm
+		// metadata", ...), so on the new backend a bare key-not-found below a head is the class lookup
+		cls = "err:classMissing"
 	}
-	t.add("revert "+modelName(n), expect, "revert on "+modelName(n))
+	t.add("revert "+modelName(n), cls, fmt.Sprintf("revert #%d on %s", t.nrev, modelName(n)))
 }
 
 func modelName(n *Node) string { return n.Name }
@@ -590,28 +673,30 @@ func (t *Trace) realFamily(n *Node, fam string) (string, error) {
 }
 
 // runModel sends the trace to the driver and reports disagreements.
-func (t *Trace) runModel(drv *lib.Driver, cfgLine string, res *lib.Result, ctx any) (compared int, err error) {
+func (t *Trace) runModel(drv *lib.Driver, cfgLine string, res *lib.Result, ctx any) (compared int, answers map[string]string, err error) {
+	answers = map[string]string{}
 	lines := []string{cfgLine}
 	for _, s := range t.steps {
 		lines = append(lines, s.line)
 	}
 	outs, err := drv.AskAll(lines)
 	if err != nil {
-		return 0, err
+		return 0, answers, err
 	}
 	if outs[0] != "ok" {
-		return 0, fmt.Errorf("driver rejected %q: %s", cfgLine, outs[0])
+		return 0, answers, fmt.Errorf("driver rejected %q: %s", cfgLine, outs[0])
 	}
 	for i, s := range t.steps {
 		got := outs[i+1]
+		answers[s.what] = got
+		if got == "bad-op" {
+			return compared, answers, fmt.Errorf("driver answered bad-op to %q", s.line)
+		}
 		if s.expect == "" {
 			continue
 		}
 		compared++
-		ok := got == s.expect
-		if s.expect == "err" {
-			ok = strings.HasPrefix(got, "err:")
-		}
+		ok := normModel(got) == s.expect
 		if !ok {
 			// history up to the disagreeing step (operations only)
 			var hist []string
@@ -623,12 +708,14 @@ func (t *Trace) runModel(drv *lib.Driver, cfgLine string, res *lib.Result, ctx a
 			if len(hist) > 40 {
 				hist = hist[len(hist)-40:]
 			}
-			res.Mismatch(lib.Mismatch{Sig: "model-differs:" + strings.SplitN(s.what, " of ", 2)[0], Input: map[string]any{"case": ctx, "step": s.what, "ops": hist},
+			res.Mismatch(lib.Mismatch{Sig: "model-differs:" + reDigits.ReplaceAllString(strings.SplitN(s.what, " of ", 2)[0], "N"), Input: map[string]any{"case": ctx, "step": s.what, "ops": hist},
 				Model: short(got), Impl: short(s.expect)})
-			return compared, nil // later steps depend on this one
+			return compared, answers, nil // later steps depend on this one
 		}
 	}
-	return compared, nil
+	return compared, answers, nil
 }
+
+var reDigits = regexp.MustCompile(`[0-9]+`)
 
 var _ = hex.EncodeToString
